@@ -233,6 +233,12 @@ impl Memfs {
 
         // Skip creation of root as `new` will take care of that
         if path == PathBuf::from(Component::RootDir.to_string()?) {
+            // The root can only ever be a directory
+            if entry.is_symlink() {
+                return Err(PathError::is_not_symlink(path).into());
+            } else if !entry.is_dir() {
+                return Err(PathError::is_not_file(path).into());
+            }
             return Ok(path);
         }
 
